@@ -95,6 +95,7 @@ static zckCtx *mk_reader3(IN_rd *in) {
         }
     }
     zck->index.last = prev; zck->index.count = in->n_nodes;
+    g_n1 = g_nodes[0]; g_n2 = g_nodes[1]; g_n3 = g_nodes[2];
     zck->comp.data_idx = in->cur < 0 ? NULL : g_nodes[in->cur];
     zck->comp.type = in->comp_type; zck->comp.started = in->started; zck->comp.data_eof = in->eof0;
     zck->comp.data_loc = in->data_loc0;
